@@ -18,7 +18,7 @@
    growpollfd for a descriptor >= INT_MAX (assert(fd < INT_MAX)); the other two asserts of
    growpollfd (pollpos == -1, nfds < fds_alloc) cannot fail. *)
 From Coq Require Import NArith ZArith List Bool Arith Lia Permutation.
-From LCP Require Import Base.CheckedMem Gen.Repo_events Events.EventsTrace Events.EventsSpec Events.EventsModel Events.EventsLemmas Events.EventsNetInv Events.EventsHeap Events.EventsSpecProofs Events.EventsInv Events.EventsOrder.
+From LCP Require Import Base.CheckedMem Gen.Repo_events Events.EventsTrace Events.EventsSpec Events.EventsModel Events.EventsLemmas Events.EventsNetInv Events.EventsHeap Events.EventsSpecProofs Events.EventsInv Events.EventsOrder Events.EventsExamples.
 Import ListNotations.
 Local Open Scope res_scope.
 Unset Lia Cache.
@@ -230,6 +230,14 @@ Qed.
 
 Definition net_ok (n : net_st) : Prop := NetInv n /\ alloc_ok n.
 
+Lemma refused_alloc_ok stage cb fd op rid n0 :
+  alloc_ok n0 -> alloc_ok (net_register_refused stage cb fd op rid n0).
+Proof.
+  intros HA. pose proof (alloc_ok_init n0 HA) as HA1.
+  destruct (net_register_refused_cases stage cb fd op rid n0) as [-> | [-> | [_ ->]]]; [exact HA | exact HA1 |].
+  unfold net_grown. destruct (length (socks (net_init n0)) <=? Z.to_nat fd); exact HA1.
+Qed.
+
 Lemma net_cancel_nf fd op n0 :
   net_ok n0 -> nfp true (fun x => net_ok (snd x)) (net_cancel fd op n0).
 Proof.
@@ -373,6 +381,9 @@ Qed.
 Lemma Shape_emit e s : Shape s -> Shape (emit e s).
 Proof. intros H. apply (Shape_same s); auto. Qed.
 
+Lemma Shape_set_net s n' : Shape s -> net_ok n' -> Shape (set_net s n').
+Proof. intros H Hn. apply (Shape_step s); auto; apply H. Qed.
+
 Lemma Shape_set_intr b s : Shape s -> Shape (set_intr s b).
 Proof. intros H. apply (Shape_same s); auto. Qed.
 
@@ -462,7 +473,9 @@ Proof.
     + intros im Him. cbn [nfp]. apply Shape_emit. apply Shape_dead.
       apply (Shape_step s); auto; apply H.
   - (* ONetReg *)
-    destruct (negb (af =? 0)); [apply Shape_emit; exact H|].
+    destruct (negb (af =? 0)).
+    { cbn [nfp]. apply Shape_emit. apply Shape_set_net; [exact H|]. destruct (sh_net s H) as [HI HA].
+      split; [apply (net_register_refused_spec af cb fd opn (next_rid (s_cl s)) (s_net s) HI) | apply refused_alloc_ok; exact HA]. }
     eapply nfp_bind.
     + apply (net_register_nf strict cb fd opn (next_rid (s_cl s)) (s_net s) (sh_net s H)). exact Hok.
     + intros [e n] [Hn Hdir]. cbn [snd fst] in Hn, Hdir. destruct e as [err|].
@@ -480,9 +493,13 @@ Proof.
       * apply Shape_dead. apply (Shape_step s); auto; apply H.
       * apply (Shape_step s); auto; apply H.
   - (* OTimerReg *)
-    destruct (af =? 1); [apply Shape_emit; exact H|].
-    destruct (negb (af =? 0)).
-    + destruct (read_clock s) as [now s1] eqn:Ec. cbn [nfp]. apply Shape_emit. eapply Shape_read_clock; eauto.
+    destruct (af =? 0).
+    2:{ assert (H0 : Shape (timer_register_refused af s)).
+        { unfold timer_register_refused. destruct (3 <=? af); [|exact H].
+          apply (Shape_step s); auto; apply H. }
+        destruct (Nat.odd af); [apply Shape_emit; exact H0|].
+        destruct (read_clock (timer_register_refused af s)) as [now s1] eqn:Ec. cbn [nfp].
+        apply Shape_emit. eapply Shape_read_clock; eauto. }
     + unfold timer_register. destruct (read_clock s) as [now s1] eqn:Ec.
       destruct (read_clock_same s now s1 Ec) as [A [B [C D]]].
       pose proof (Shape_read_clock s now s1 H Ec) as H1.
@@ -550,9 +567,6 @@ Proof.
 Qed.
 
 (* ================================================================ poll, select, timers *)
-Lemma Shape_set_net s n' : Shape s -> net_ok n' -> Shape (set_net s n').
-Proof. intros H Hn. apply (Shape_step s); auto; apply H. Qed.
-
 Lemma Shape_set_polls s pl : Shape s -> Shape (set_polls s pl).
 Proof. intros H. apply (Shape_same s); auto. Qed.
 
@@ -831,5 +845,30 @@ Example ex_assert_prio :
   exists tr, run_case [] [XOp (OImmReg 0 31 0 0)] [] [] 5 = Ok tr.
 Proof. split; [vm_compute; reflexivity|]. split; [vm_compute; reflexivity|]. eexists. vm_compute. reflexivity. Qed.
 
-Print Assumptions model_never_faults.
-Print Assumptions model_no_assert.
+(* with the hypotheses of the C04 theorems and the argument contract: the run returns a trace the
+   theorems speak about, unless the fuel given to the dispatcher loops was too small *)
+Theorem runs_to_or_out_of_fuel p xs pl cl fuel :
+  prog_norm p -> Forall xop_norm xs -> Forall (fun t => tv_norm t = true) cl ->
+  prog_safe p -> Forall xop_safe xs ->
+  (exists tr, runs_to p xs pl cl fuel tr) \/ run_case p xs pl cl fuel = OutOfFuel.
+Proof.
+  intros A B C D E. destruct (model_no_assert p xs pl cl fuel D E) as [[tr H] | H]; [left | right; exact H].
+  exists tr. unfold runs_to. auto.
+Qed.
+
+(* non-vacuity of prog_safe / xop_safe: the program of EventsExamples.v (all three kinds fire) *)
+Ltac safe_tac :=
+  repeat match goal with
+         | |- _ /\ _ => split
+         | |- Forall _ _ => constructor
+         | |- script_safe _ => unfold script_safe; simpl fst
+         | |- xop_safe _ => cbn [xop_safe]
+         | |- op_safe _ => cbn [op_safe]
+         | |- True => exact I
+         | |- (_ < _)%Z => reflexivity
+         | |- _ < PRIO_LIMIT => apply Nat.ltb_lt; reflexivity
+         end.
+
+Example ex_safe : prog_safe ex_prog /\ Forall xop_safe ex_xops.
+Proof. unfold prog_safe, ex_prog, ex_xops. safe_tac. Qed.
+
